@@ -185,7 +185,9 @@ func s3dName(lvl, mode int, content string) string {
 // the 41-digit and 25-character contents fill version 1-L to within 0..3 bits of its capacity
 // (terminator shorter than four bits): the byte stream and the block reader must still agree
 var s3dCases = [][2]string{{"1", "0123"}, {"2", "AB1"}, {"3", "hé"}, {"0", "7"}, {"1", "12a"}, {"2", "ab"},
-	{"1", "01234567890123456789012345678901234567890"}, {"2", "ABCDEFGHIJKLMNOPQRSTUVWXY"}}
+	{"1", "01234567890123456789012345678901234567890"}, {"2", "ABCDEFGHIJKLMNOPQRSTUVWXY"},
+	// refused for size (every early return must leave no goroutine behind)
+	{"2", strings.Repeat("A", 4297)}, {"1", strings.Repeat("7", 7090)}, {"0", strings.Repeat("Z", 4297)}, {"3", strings.Repeat("z", 2954)}}
 
 func cachesKeyShort() string {
 	return fmt.Sprintf("qr cache %d, dm cache %d", len(qr.VerifCacheState()), len(datamatrix.VerifCacheState()))
@@ -342,7 +344,10 @@ func racePass(c *core.Ctx) {
 	procs := []int{1, 2, 4, 16}
 	for _, g := range gcounts {
 		for _, p := range procs {
-			for _, mode := range []string{"mixed", "qr", "rs"} {
+			for _, mode := range []string{"mixed", "qr", "rs", "same"} {
+				if mode == "same" && g > 8 {
+					continue // "same" runs every operation in g goroutines at once (g x ~75 goroutines)
+				}
 				if !c.Mine() {
 					continue
 				}
@@ -441,7 +446,7 @@ func c16Body(c *core.Ctx) {
 			continue // quick: the alphanumeric pipeline is S3b's, byte mode has no pipeline of its own
 		}
 		b := -1
-		if !T && cm[1] != "12a" && cm[1] != "ab" {
+		if !T && cm[1] != "12a" && cm[1] != "ab" && len(cm[1]) < 1000 {
 			b = 0 // quick: all non-preemptive schedules of the successful whole calls; the component pipelines are explored exhaustively by S3a-c
 		}
 		exploreUnit(c, []string{"S3d", "0", cm[0], cm[1]}, b, false)
@@ -451,7 +456,7 @@ func c16Body(c *core.Ctx) {
 	c.R.Bound("S1", fmt.Sprintf("2 threads x degrees {1,2,3}^2 on GF(256) and GF(16), preemption bound %d (thorough: also 3 threads, bound 2); scheduling point before every statement of reedsolomon.go", b1))
 	c.R.Bound("S2", fmt.Sprintf("all unordered pairs (thorough: triples) of %v from cold package state, group-level policy, preemption bound %d", s2, b2))
 	c.R.Bound("S3", "every schedule (iterative bounding continued until no alternative is cut; pruning on an exact global state key: per-thread operation/value histories + channel and lock states): iterateModules on 9x9, 13x13 and the version-1 function-pattern matrix; encodeAlphaNumeric on all words <= 3 over {A,Z,:,a,é}; splitToBlocks(IterateBytes) for v1-L, v3-Q, v5-Q; eight whole qr.Encode calls (Numeric, AlphaNumeric, Unicode, Auto, two error-returning, two that fill version 1-L to within 3 bits of capacity; quick tier: Numeric and Auto only, with all non-preemptive schedules, preemption bound 0, plus the two error-returning calls with every schedule)")
-	c.R.Bound("S4", "free-running -race pass: {mixed, qr, rs} x goroutines {2,8,64} x GOMAXPROCS {1,2,4,16}, each in a fresh process (detector, not enumeration)")
+	c.R.Bound("S4", "free-running -race pass: {mixed, qr, rs} x goroutines {2,8,64} and {same: every operation of the alphabet in 2 or 8 goroutines at once} x GOMAXPROCS {1,2,4,16}, each in a fresh process (detector, not enumeration)")
 	c.R.Sample(map[string]any{"harness": "S1 0 2 3", "meaning": "two threads call Encode(_,2) and Encode(_,3) on one fresh encoder; all interleavings of the statements of reedsolomon.go with <= bound preemptions; oracle: both results == reference remainder, cache == reference generators"})
 	c.R.Sample(map[string]any{"harness": "S3b 0 A:a", "meaning": "every schedule of the alphanumeric producer/consumer pipeline on an input with an invalid third character; oracle: same result as alone, no goroutine left parked"})
 	_ = time.Now
